@@ -45,6 +45,28 @@ impl TypeResolver {
         }
     }
 
+    /// Drop the path in front of every type name of a type string:
+    /// `std::vec::Vec<models::User>` names the same type as `Vec<User>`
+    pub fn strip_path_qualifiers(rust_type: &str) -> String {
+        let mut result = String::with_capacity(rust_type.len());
+        // where the identifier currently being copied starts in `result`
+        let mut ident_start = 0;
+        let mut chars = rust_type.chars().peekable();
+        while let Some(ch) = chars.next() {
+            if ch == ':' && chars.peek() == Some(&':') {
+                chars.next();
+                // what was just copied was a qualifying segment, not the type name
+                result.truncate(ident_start);
+            } else {
+                result.push(ch);
+                if !(ch.is_alphanumeric() || ch == '_') {
+                    ident_start = result.len();
+                }
+            }
+        }
+        result
+    }
+
     /// Extract inner type from Option<T>
     fn extract_option_inner_type(&self, rust_type: &str) -> Option<String> {
         if rust_type.starts_with("Option<") && rust_type.ends_with('>') {
